@@ -695,3 +695,6 @@ def run(ctx):
     r9_signed_arith(ctx, F)
     r10_module_slots(ctx, F)
     r12_stack_top(ctx, F)
+    # (MIN, -1) never reaches the panicking small-int % and / (shared with C10.R5)
+    from rules.C10 import r5_small_remainder_guarded
+    r5_small_remainder_guarded(ctx, F, rule="C07.R13")
